@@ -27,7 +27,7 @@ open Biogo.PalsMerge Biogo.Proofs.PalsMerge
 theorem merge_source_facts :
     Biogo.Generated.PalsMerge.diagonalPadding = diagonalPadding ∧
     Biogo.Generated.PalsMerge.fpNewMerger = "392443e40c06fbbe" ∧
-    Biogo.Generated.PalsMerge.fpMergeFilterHit = "1909f9d36f7ab7fd" ∧
+    Biogo.Generated.PalsMerge.fpMergeFilterHit = "f9561280355fe664" ∧
     Biogo.Generated.PalsMerge.fpClipVertical = "5861ce210623e268" ∧
     Biogo.Generated.PalsMerge.fpClipTrapezoids = "47091a1af8bc4977" ∧
     Biogo.Generated.PalsMerge.fpFinaliseMerge = "bba445c04632a297" ∧
@@ -60,7 +60,7 @@ theorem merge_some {c : Cfg} {hits : List FHit} {traps : List Trap} (h : merge c
 /-- the state after the last hit, under `Pre`: the invariant, the hits covered, well-formedness -/
 theorem merged_state {c : Cfg} {hits : List FHit} (pre : Pre c hits) {s : St}
     (hm : mergeAll c St.init hits = some s) :
-    (∀ h ∈ hits, selfCut c h = false → ∃ t, (t ∈ s.active ∨ t ∈ s.done) ∧ Holds c t (-h.diagonal) h.to h.from_) ∧
+    (∀ h ∈ hits, dropped c h = false → ∃ t, (t ∈ s.active ∨ t ∈ s.done) ∧ Holds c t (-h.diagonal) h.to h.from_) ∧
     (∀ t, t ∈ s.active ∨ t ∈ s.done → t.bottom ≤ t.top ∧ t.left + c.binWidth ≤ t.right) := by
   have hwf := mergeAll_forall c (fun t => t.bottom ≤ t.top)
     (by intro x y hx hy; show (absorb x y).bottom ≤ (absorb x y).top
@@ -104,13 +104,15 @@ theorem clipping_is_identity_on_valid (c : Cfg) (hits : List FHit) (pre : Pre c 
   have hb := pre.band
   omega
 
-/-- **`merger_covers_hits`** — every filter hit handed to the merger, outside the
-    self-comparison cut, is contained in some returned trapezoid: the trapezoid's diagonal range
+/-- **`merger_covers_hits`** — every filter hit handed to the merger that is not dropped at the head
+    of `MergeFilterHit` (`dropped`: the self-comparison cut, or — since the repair of the sixth
+    defect — a band that starts beyond the last query row, `-Diagonal > Qlen`, which holds no cell of
+    the comparison) is contained in some returned trapezoid: the trapezoid's diagonal range
     `[Left, Right]` contains the hit's band `[-Diagonal, -Diagonal + binWidth]` and its query
     range `[Bottom, Top]` contains `[From, To]`. -/
 theorem merger_covers_hits (c : Cfg) (hits : List FHit) (traps : List Trap) (pre : Pre c hits)
     (hm : merge c hits = some traps) :
-    ∀ h ∈ hits, selfCut c h = false →
+    ∀ h ∈ hits, dropped c h = false →
       ∃ t ∈ traps, t.left ≤ -h.diagonal ∧ -h.diagonal + c.binWidth ≤ t.right ∧
         t.bottom ≤ h.from_ ∧ h.to ≤ t.top := by
   obtain ⟨s, hs, rfl⟩ := merge_some hm
@@ -152,6 +154,9 @@ theorem merger_self_clear_of_diagonal (c : Cfg) (hself : c.selfComparison = true
     (by intro x y hx _; exact hx)
     hits St.init s
     (by intro h _ hc
+        unfold dropped at hc
+        simp only [Bool.or_eq_false_iff] at hc
+        replace hc := hc.2
         unfold selfCut at hc
         rw [hself] at hc
         simp only [Bool.true_and, decide_eq_false_iff_not] at hc
@@ -248,12 +253,13 @@ theorem merger_output_rows_any_letters (c : Cfg) (hg : 1 ≤ c.maxIGap) (hits : 
     · exact inv.2 t0 h)
   omega
 
-/-- **`merger_total`** — inside the modelled domain (every hit either cut by the self-comparison
-    test or with `-Diagonal ≤ Qlen` and `From - bottomPadding ≤ Qlen + 1`, which every hit of
-    `filter.Filter` satisfies) the model never answers `none`: the sentinel of the active list
-    stays an inert end marker. -/
+/-- **`merger_total`** — inside the modelled domain (every hit either dropped at the head of
+    `MergeFilterHit` or with `From - bottomPadding ≤ Qlen + 1`, which every hit of `filter.Filter`
+    satisfies: `filter_hits_in_merger_domain`) the model never answers `none`: the sentinel of the
+    active list stays an inert end marker.  (Before the repair of the sixth defect the domain also
+    needed `-Diagonal ≤ Qlen`, and `filter.Filter` does produce hits beyond it.) -/
 theorem merger_total (c : Cfg) (hits : List FHit)
-    (hdom : ∀ h ∈ hits, selfCut c h = true ∨ inDomain c h = true) : ∃ traps, merge c hits = some traps := by
+    (hdom : ∀ h ∈ hits, dropped c h = true ∨ inDomain c h = true) : ∃ traps, merge c hits = some traps := by
   obtain ⟨s, hs⟩ := mergeAll_total c hits St.init hdom (by simp [St.init]) (by simp [St.init])
   exact ⟨finalise c s, by unfold merge; rw [hs]; rfl⟩
 
